@@ -236,6 +236,27 @@ func runC17(c *Ctx) error {
 		fixRequired(doc)
 		check(doc, "random")
 	}
+	// every registered packager as an override key (the schema must not know fewer formats than the parser)
+	for _, f := range nfpm.Enumerate() {
+		check(map[string]any{"name": "p", "arch": "amd64", "version": "1.0.0",
+			"overrides": map[string]any{f: map[string]any{"depends": []any{"x"}, "umask": 18}}}, "override-key:"+f)
+	}
+	// the other direction, from the schema's side: every key path the emitted schema allows must be a key path
+	// the strict parser knows; for a path it does not know the one-key document is the failing input
+	sk := map[string]string{}
+	c17SchemaPaths(root, root, "", sk, 0)
+	famS := 0
+	for sp, kind := range sk {
+		if _, known := kinds[sp]; known {
+			continue
+		}
+		famS++
+		doc := docFor(sk, sp, leafFor(kind), -1)
+		fixRequired(doc)
+		check(doc, "schema-only-path:"+sp)
+	}
+	fam2.Distribution["schema-key-paths"] = len(sk)
+	fam2.Distribution["schema-key-paths-unknown-to-parser"] = famS
 	// cross-check of the harness validator with python jsonschema when installed
 	if py, err := exec.LookPath("python3-vt"); err == nil {
 		doc := map[string]any{"name": "p", "arch": "amd64", "version": "1.0.0", "deb": map[string]any{"compression": "bogus"}}
@@ -248,6 +269,63 @@ func runC17(c *Ctx) error {
 		}
 	}
 	return nil
+}
+
+// c17SchemaPaths lists the key paths of the emitted schema in the notation of the reflected key tree
+// ("a.b", ".[]" for list items, ".{}" for map values) with the kind of each path.
+func c17SchemaPaths(root, node map[string]any, prefix string, out map[string]string, depth int) {
+	if depth > 12 {
+		return
+	}
+	if ref, ok := node["$ref"].(string); ok {
+		defs, _ := root["$defs"].(map[string]any)
+		if d, ok := defs[strings.TrimPrefix(ref, "#/$defs/")].(map[string]any); ok {
+			c17SchemaPaths(root, d, prefix, out, depth+1)
+		}
+		return
+	}
+	join := func(k string) string {
+		if prefix == "" {
+			return k
+		}
+		return prefix + "." + k
+	}
+	switch t, _ := node["type"].(string); t {
+	case "object":
+		if prefix != "" {
+			out[prefix] = "object"
+		}
+		if props, ok := node["properties"].(map[string]any); ok {
+			for k, v := range props {
+				if m, ok := v.(map[string]any); ok {
+					c17SchemaPaths(root, m, join(k), out, depth+1)
+				}
+			}
+		}
+		if ap, ok := node["additionalProperties"].(map[string]any); ok {
+			out[prefix] = "map"
+			c17SchemaPaths(root, ap, join("{}"), out, depth+1)
+		}
+	case "array":
+		out[prefix] = "list"
+		if it, ok := node["items"].(map[string]any); ok {
+			c17SchemaPaths(root, it, join("[]"), out, depth+1)
+		}
+	case "integer":
+		out[prefix] = "int"
+	case "boolean":
+		out[prefix] = "bool"
+	case "string":
+		if f, _ := node["format"].(string); f == "date-time" {
+			out[prefix] = "time"
+		} else {
+			out[prefix] = "string"
+		}
+	default:
+		if prefix != "" {
+			out[prefix] = "string"
+		}
+	}
 }
 
 func mustJSON(b []byte) any {
